@@ -380,6 +380,33 @@ def r6_precedence(ctx, rep):
             rep.ob(f"flag --{d} defaults to None", ok, "absent flag does not override the file value" if ok else
                    f"flag for `{d}` has a non-None default: it always overrides the project file", py.nloc(c))
     ini = py.func("__init__.initialize")
+    # a value that was given on the command line and is falsy (`--no-search` stores False) overrides like any other: on the way
+    # from the parsed arguments to the merge, and in the merge itself, values are dropped for being None only - never for being
+    # false / empty
+    truthy = []
+    for host in (ini, py.func("settings.convert_types_from_commandarguments"), py.func("__init__.parse_arguments")):
+        valnames = set()
+        for n in ast.walk(host):
+            if isinstance(n, (ast.For, ast.comprehension)) and isinstance(n.target, ast.Tuple) and len(n.target.elts) == 2 and \
+                    isinstance(n.iter, ast.Call) and isinstance(n.iter.func, ast.Attribute) and n.iter.func.attr == "items" and \
+                    any(k in ast.unparse(n.iter.func.value) for k in ("args", "command_line")):
+                if isinstance(n.target.elts[1], ast.Name):
+                    valnames.add(n.target.elts[1].id)
+        for n in ast.walk(host):
+            tests = []
+            if isinstance(n, ast.comprehension):
+                tests = list(n.ifs)
+            elif isinstance(n, (ast.If, ast.IfExp)):
+                tests = [n.test]
+            for t in tests:
+                for x in ([t] if isinstance(t, ast.Name) else (t.values if isinstance(t, ast.BoolOp) else [t.operand] if isinstance(t, ast.UnaryOp) and isinstance(t.op, ast.Not) else [])):
+                    if isinstance(x, ast.Name) and x.id in valnames:
+                        truthy.append((host, x))
+    rep.ob("a falsy value given on the command line still overrides", not truthy,
+           "command-line values are tested against None only" if not truthy else
+           f"`{truthy[0][1].id}` (a command-line value) is tested for truthiness in {py.qualname(truthy[0][0])}: an option that was given with the "
+           f"value False - `--no-search` - is treated like one that was not given, and the project file wins",
+           py.nloc(truthy[0][1]) if truthy else py.nloc(ini))
     seq = [call_name(c) for st in ini.body for c in py.walk_calls(st)]
     ok = "load_settings" in seq and "parse_arguments" in seq and seq.index("load_settings") < seq.index("parse_arguments")
     rep.ob("file settings loaded before CLI merge", ok, "", py.nloc(ini))
@@ -720,6 +747,48 @@ def r14_paths_do_not_depend_on_cwd(ctx, rep):
     c19.r3_resolved_paths(ctx, rep)
 
 
+_SPLIT_EXAMPLE = """
+def bad(string):
+    return string.strip().split(" ")
+def good(string):
+    return string.split()
+def good2(string):
+    return string.split(",")
+"""
+
+
+def _single_blank_splits(fn: ast.AST):
+    return [c for c in ast.walk(fn) if isinstance(c, ast.Call) and isinstance(c.func, ast.Attribute) and c.func.attr in ("split", "rsplit")
+            and c.args and isinstance(c.args[0], ast.Constant) and c.args[0].value in (" ", "\t")]
+
+
+def r15_fields_split_at_blank_runs(ctx, rep):
+    """Option values that are records written as text (`extra_filetypes: cpp  //  c++`) have their fields separated by blanks -
+    any number of them, as in aligned metadata blocks, and tabs.  `text.split()` does that; `text.split(" ")` produces empty
+    fields for every additional blank, so a well-formed value is rejected or - worse - read with its fields shifted, while the
+    same record written as a TOML table is read correctly."""
+    py = ctx.py
+    ex = ast.parse(_SPLIT_EXAMPLE)
+    got = {f.name: len(_single_blank_splits(f)) for f in ex.body if isinstance(f, ast.FunctionDef)}
+    if got != {"bad": 1, "good": 0, "good2": 0}:
+        raise AnalysisError(f"single-blank split matcher fails on its own example: {got}")
+    n = 0
+    sites = 0
+    for mod, fn in py.all_functions():
+        if mod != "settings":
+            continue
+        n += 1
+        for c in _single_blank_splits(fn):
+            sites += 1
+            rep.ob(f"{py.qualname(fn)}: `{ast.unparse(c)[:50]}`", False,
+                   f"`{ast.unparse(c)[:60]}` splits an option value at every single blank: two blanks (or a tab) between the fields give "
+                   f"an empty field, the record is rejected or its fields are shifted", py.nloc(c))
+    rep.ob("records in option values are split at runs of blanks", sites == 0, f"{n} functions of settings.py inspected, no single-blank split",
+           "ford/settings.py")
+    if n < 10:
+        raise AnalysisError("settings.py: functions not found")
+
+
 RULES = [
     RuleSpec("C15.R4", r4_path_rooting, "relative paths are rooted at the project file's directory", floor=2),
     RuleSpec("C15.R8", r8_metadata_grammar, "markdown metadata grammar: key lines vs continuation lines", floor=2),
@@ -734,4 +803,5 @@ RULES = [
     RuleSpec("C15.R9", r9_values_recorded_as_written, "values are recorded as written; TOML values stay native", floor=2),
     RuleSpec("C15.R13", r13_metadata_accumulates, "repeated metadata keys accumulate (lists agree between formats)", floor=2),
     RuleSpec("C15.R14", r14_paths_do_not_depend_on_cwd, "path normalisation is a function of the project directory (shared with C19.R3)", floor=1),
+    RuleSpec("C15.R15", r15_fields_split_at_blank_runs, "textual records in option values are split at runs of blanks", floor=1),
 ]
